@@ -909,6 +909,28 @@ pub fn run_op(r: &Req, b: &Built) -> Result<String, String> {
                     let at2 = hay2.len();
                     hay2.extend_from_slice(p);
                     hay2.push(0xFF);
+                    // every copy of the pattern (identical, or equal under case folding) must be reported with its own
+                    // id by the overlapping enumeration (standard semantics only)
+                    if matches!(mk, MatchKind::Standard) && !p.is_empty() {
+                        let fold = r.b("fold");
+                        let eq = |a: &[u8], b: &[u8]| {
+                            a.len() == b.len()
+                                && a.iter().zip(b).all(|(x, y)| {
+                                    if fold { x.to_ascii_lowercase() == y.to_ascii_lowercase() } else { x == y }
+                                })
+                        };
+                        if let Ok(ms) = s.ovl_iter(Input::new(&hay1)) {
+                            for (j, q) in pats.iter().enumerate() {
+                                if eq(q, p)
+                                    && !ms.iter().any(|m| {
+                                        m.pattern().as_usize() == j && m.start() == 1 && m.end() == 1 + p.len()
+                                    })
+                                {
+                                    return format!("bad:copy-{}-of-{}-not-reported", j, i);
+                                }
+                            }
+                        }
+                    }
                     for (hay, at) in [(hay1, 1usize), (hay2, at2)] {
                     let mut res = s.find(Input::new(&hay));
                     if matches!(&res, Err(e) if err_name(e) == "err-unanchored") {
@@ -1270,7 +1292,10 @@ pub fn run(r: &Req) -> Vec<(String, String)> {
     STREAM_ITEM_CAP.with(|c| c.set(usize::MAX));
     // `topfind` / `topiter` / `topismatch` / `topovl`: the same real methods, compared with the capstone model
     let stripped;
-    let r = if matches!(r.op.as_str(), "topfind" | "topiter" | "topismatch" | "topovl") {
+    let r = if matches!(
+        r.op.as_str(),
+        "topfind" | "topiter" | "topismatch" | "topovl" | "topstream" | "topstreamrep" | "topstreamrepwith"
+    ) {
         let mut r2 = r.clone();
         r2.op = r.op[3..].to_string();
         stripped = r2;
